@@ -117,7 +117,7 @@ func hangWatchdog(c *ctx, scenario string) {
 	last, lastChange := -1, time.Now()
 	for {
 		time.Sleep(5 * time.Second)
-		p := c.o.nT + c.o.nV + c.o.stats["cases"]
+		p := c.o.progress()
 		if os.Getenv("VERIF_WATCHDOG_DEBUG") != "" {
 			fmt.Fprintf(os.Stderr, "watchdog: progress=%d last=%d since=%v\n", p, last, time.Since(lastChange))
 		}
@@ -145,7 +145,7 @@ func hangWatchdog(c *ctx, scenario string) {
 			}
 			// one goroutine alone counts only if nobody is asleep on the (possibly virtual) clock: inside a synctest bubble
 			// a sleeper holding the lock could not be woken while somebody waits on that lock
-			if (len(same) >= 2 || (len(same) == 1 && sleepers <= 1)) && c.o.nT+c.o.nV+c.o.stats["cases"] == last {
+			if (len(same) >= 2 || (len(same) == 1 && sleepers <= 1)) && c.o.progress() == last {
 				sort.Strings(same)
 				prop := scenario
 				if len(prop) > 3 {
